@@ -12,7 +12,7 @@
    [closed h]: every reference in h points to an allocated id (< next h). *)
 From Coq Require Import List ZArith NArith PArith Bool Lia.
 From IRV Require Import Base.Exn C13.Model C13.Proofs1 C13.Proofs3 C13.Proofs8 C13.Proofs9 C13.Proofs10
-     C13.Proofs11 C13.Proofs12 C13.Proofs13.
+     C13.Proofs11 C13.Proofs12 C13.Proofs13 C13.Proofs14.
 Import ListNotations.
 Local Open Scope positive_scope.
 
@@ -39,8 +39,9 @@ Print Assumptions C13_function_clone_only_allocates.
    attribute, ...) reachable from the clone is newly allocated, except [shared_ok]: a shared non-graph Attr
    cell, an object stored in a meta store when deep_copy is False, a passed-through value — only when
    allow_outer_scope_values is True — and, only if the original violates C19's invariant [wf_dev] (a sharding
-   spec about a value that is neither input nor output of its node), such a spec's value.  Tensors are
-   immutable tokens, not cells.  (Statement for Graph.clone and GraphView.clone.) *)
+   spec about a value that is neither input nor output of its node), such a spec's value, and the tensor OBJECT
+   of a value's const_value (a cell with a mutable name; never copied — see C13_independent_tensor_rename_refuted).
+   (Statement for Graph.clone and GraphView.clone.) *)
 Theorem C13_fresh :
   forall allow deep h fuel g st g',
     closed h -> g < next h -> graph_clone fuel allow deep g h = (st, Ok g') ->
@@ -56,7 +57,8 @@ Theorem C13_fresh_without_flag :
     closed h -> g < next h -> wf_dev h -> graph_clone fuel false deep g h = (st, Ok g') ->
     forall x, reach (cells (hp st)) (next h) g' x -> x < next h ->
       (exists a, cells h x = Some (CAttr a) /\ shared_attr a) \/
-      (deep = false /\ exists m md k, cells h m = Some (CMeta md) /\ In (k, MObj x) (m_data md)).
+      (deep = false /\ exists m md k, cells h m = Some (CMeta md) /\ In (k, MObj x) (m_data md)) \/
+      (exists o v0, cells h o = Some (CValue v0) /\ v_const v0 = Some x).
 Proof.
   intros deep h fuel g st g' Hc Hg Hd Hr x. apply (P_graph_no_capture false deep h fuel g st g' Hc Hg Hr x Hd eq_refl).
 Qed.
@@ -102,6 +104,7 @@ Theorem C13_closed :
     forall x, reach (cells (hp st)) (next h) g' x -> x < next h ->
       (exists a, cells h x = Some (CAttr a) /\ shared_attr a) \/
       (deep = false /\ exists m md k, cells h m = Some (CMeta md) /\ In (k, MObj x) (m_data md)) \/
+      (exists o v0, cells h o = Some (CValue v0) /\ v_const v0 = Some x) \/
       ((In x (passed st) \/ In x (kept st)) /\ forall k, ~ In x (owned (cells h) k g)).
 Proof.
   intros allow deep h fuel g st g' Hc Hg Hr Hs x. apply (P_graph_closed allow deep h fuel g st g' Hc Hg Hr x Hs).
@@ -133,17 +136,29 @@ Print Assumptions C13_faithful_model.
 
 (* ---- C13_independent.  Footprint of every operation of the edit alphabet (set name / doc / const_value /
    dtype / type / shape / shape[i], metadata_props[k]= / pop, meta[k]= / invalidate, node name,
-   replace_input_with, attributes[k]= / pop, graph name, append / remove node, opset_imports[k]=):
-   for ANY two-colouring of identities in which every object owns sub-objects of its own colour ([sep]),
-   an operation whose arguments have colour s writes only cells of colour s and preserves the invariant. *)
+   replace_input_with, attributes[k]= / pop, graph name, append / remove node, opset_imports[k]=, and the in-place
+   Attr edits attr.doc_string= / attr.name=): for ANY two-colouring of identities in which every object owns
+   sub-objects of its own colour ([sep]), an operation whose arguments have colour s and that does not rename a
+   tensor object ([renames_tensor]: Value.name = n on a value whose const_value is a tensor) writes only cells of
+   colour s and preserves the invariant ... *)
 Theorem C13_independent_step :
   forall col s h o h' r,
-    inv col s h -> op_sided col s h o -> apply_op h o = (h', r) -> inv col s h' /\ frame col s h h'.
+    inv col s h -> op_sided col s h o -> op_refs_ok h o -> renames_tensor h o = false ->
+    apply_op h o = (h', r) -> inv col s h' /\ frame col s h h'.
 Proof. exact apply_op_step. Qed.
 Print Assumptions C13_independent_step.
 
+(* ... and EVERY operation, tensor renames included, leaves every cell of the other colour that is not a tensor
+   object unchanged (the only cell the Value.name setter writes besides the value is its const_value tensor) *)
+Theorem C13_independent_step_any :
+  forall col s h o h' r,
+    inv col s h -> op_sided col s h o -> op_refs_ok h o ->
+    apply_op h o = (h', r) -> inv col s h' /\ frame_nt col s h h'.
+Proof. exact apply_op_step_nt. Qed.
+Print Assumptions C13_independent_step_any.
+
 (* interleaved histories: before an operation of side s the identities not yet allocated may be given colour s
-   (they do not occur in the heap), so the step theorem applies to every operation of any interleaving and the
+   (they do not occur in the heap), so the step theorems apply to every operation of any interleaving and the
    cells of the other side, whatever it is at that moment, are unchanged by it *)
 Theorem C13_independent_recolor :
   forall col h s, closed h -> sep col h -> inv (fun x => if Pos.leb (next h) x then s else col x) s h.
@@ -151,22 +166,35 @@ Proof. exact inv_recolor. Qed.
 Print Assumptions C13_independent_recolor.
 
 (* after a clone the invariant holds for both colourings, so: any history of edits of the clone (of objects
-   created by the clone or later) leaves every cell of the original exactly as it was before cloning ... *)
+   created by the clone or later) leaves every cell of the original that is not a tensor object exactly as it
+   was before cloning — for EVERY history over the alphabet ... *)
 Theorem C13_independent :
   forall allow deep h fuel g st g' ops,
     closed h -> g < next h -> graph_clone fuel allow deep g h = (st, Ok g') ->
     ops_sided (col_clone (next h)) true (hp st) ops ->
-    forall x, x < next h -> cells (apply_ops (hp st) ops) x = cells h x.
+    forall x, x < next h -> is_tensor (cells h x) = false -> cells (apply_ops (hp st) ops) x = cells h x.
 Proof.
-  intros allow deep h fuel g st g' ops Hc Hg Hr Hs x. apply (P_graph_clone_edits allow deep h fuel g st g' Hc Hg Hr ops x Hs).
+  intros allow deep h fuel g st g' ops Hc Hg Hr Hs x. apply (P_graph_clone_edits_nt allow deep h fuel g st g' Hc Hg Hr ops x Hs).
 Qed.
 Print Assumptions C13_independent.
 
-(* ... hence the original's serialization is unchanged ... *)
+(* ... all cells, tensors included, when the history renames no value that carries a const_value tensor ... *)
+Theorem C13_independent_no_tensor_rename :
+  forall allow deep h fuel g st g' ops,
+    closed h -> g < next h -> graph_clone fuel allow deep g h = (st, Ok g') ->
+    ops_sided (col_clone (next h)) true (hp st) ops -> ops_no_trename (hp st) ops ->
+    forall x, x < next h -> cells (apply_ops (hp st) ops) x = cells h x.
+Proof.
+  intros allow deep h fuel g st g' ops Hc Hg Hr Hs Hn x.
+  apply (P_graph_clone_edits allow deep h fuel g st g' Hc Hg Hr ops x Hs Hn).
+Qed.
+Print Assumptions C13_independent_no_tensor_rename.
+
+(* ... hence, for such histories, the original's serialization is unchanged ... *)
 Theorem C13_independent_canon :
   forall allow deep h fuel g st g' ops k,
     closed h -> g < next h -> graph_clone fuel allow deep g h = (st, Ok g') ->
-    ops_sided (col_clone (next h)) true (hp st) ops ->
+    ops_sided (col_clone (next h)) true (hp st) ops -> ops_no_trename (hp st) ops ->
     gcanon (cells (apply_ops (hp st) ops)) k g = gcanon (cells h) k g.
 Proof.
   intros allow deep h fuel g st g' ops k Hc Hg Hr. apply (P_graph_clone_edits_canon allow deep h fuel g st g' Hc Hg Hr ops k).
@@ -174,35 +202,76 @@ Qed.
 Print Assumptions C13_independent_canon.
 
 (* ... and symmetrically any history of edits of the original (objects that existed before the clone, or
-   created later) leaves every cell created by the clone as the clone made it *)
+   created later) leaves every non-tensor cell created by the clone as the clone made it (all cells without renames) *)
 Theorem C13_independent_sym :
   forall allow deep h fuel g st g' ops,
     closed h -> g < next h -> graph_clone fuel allow deep g h = (st, Ok g') ->
     ops_sided (col_orig (next h) (next (hp st))) true (hp st) ops ->
-    forall x, next h <= x -> x < next (hp st) -> cells (apply_ops (hp st) ops) x = cells (hp st) x.
+    forall x, next h <= x -> x < next (hp st) -> is_tensor (cells (hp st) x) = false ->
+              cells (apply_ops (hp st) ops) x = cells (hp st) x.
 Proof.
-  intros allow deep h fuel g st g' ops Hc Hg Hr Hs x. apply (P_graph_orig_edits allow deep h fuel g st g' Hc Hg Hr ops x Hs).
+  intros allow deep h fuel g st g' ops Hc Hg Hr Hs x. apply (P_graph_orig_edits_nt allow deep h fuel g st g' Hc Hg Hr ops x Hs).
 Qed.
 Print Assumptions C13_independent_sym.
 
 Theorem C13_independent_model :
   forall deep h fuel m st m' ops,
     closed h -> m < next h -> model_clone fuel deep m h = (st, Ok m') ->
-    ops_sided (col_clone (next h)) true (hp st) ops ->
+    ops_sided (col_clone (next h)) true (hp st) ops -> ops_no_trename (hp st) ops ->
     forall x, x < next h -> cells (apply_ops (hp st) ops) x = cells h x.
 Proof.
-  intros deep h fuel m st m' ops Hc Hm Hr Hs x. apply (P_model_clone_edits deep h fuel Hc m st m' ops x Hm Hr Hs).
+  intros deep h fuel m st m' ops Hc Hm Hr Hs Hn x. apply (P_model_clone_edits deep h fuel Hc m st m' ops x Hm Hr Hs Hn).
 Qed.
 Print Assumptions C13_independent_model.
 
+(* ---- the full statement "every clone-sided history leaves the original's serialization unchanged" is REFUTED
+   (known finding tensor-rename-alias): for the model  Constant(value = t) -> v  with v.const_value = t, renaming
+   the CLONE's value (a clone-sided operation on a newly allocated cell) rewrites the pre-existing tensor cell t
+   and changes the canonical serialization of the ORIGINAL model. *)
+Theorem C13_independent_tensor_rename_refuted :
+  let run := model_clone 3 false 15 w2 in
+  closed w2 /\ snd run = Ok 28 /\
+  ops_sided (col_clone (next w2)) true (hp (fst run)) [VSetName 20 (Some 9%N)] /\
+  renames_tensor (hp (fst run)) (VSetName 20 (Some 9%N)) = true /\
+  cells (apply_ops (hp (fst run)) [VSetName 20 (Some 9%N)]) 1 <> cells w2 1 /\
+  mcanon (cells (apply_ops (hp (fst run)) [VSetName 20 (Some 9%N)])) 3 15 <> mcanon (cells w2) 3 15.
+Proof.
+  cbv zeta. split; [exact w2_closed|]. split; [exact w2_result|]. split; [exact w2_rename_sided|].
+  split; [exact w2_rename_is_tensor_rename|exact w2_rename_changes_original].
+Qed.
+Print Assumptions C13_independent_tensor_rename_refuted.
+
+(* ---- non-graph Attr objects are SHARED cells (by design of the cloner): an in-place edit of the Attr object
+   reached through the clone's node is an edit of the original's attribute (it is an operation on a pre-existing
+   cell, so it is not clone-sided and C13_independent does not apply); replacing / removing the entry in the clone's
+   attribute dict is clone-sided and leaves the original as it was. *)
+Theorem C13_shared_attr_edit_visible :
+  let run := model_clone 3 false 15 w2 in
+  (exists n, cells (hp (fst run)) 21 = Some (CNode n) /\ n_attrs n = [(2%N, 2)] /\ n_outputs n = [20]) /\
+  mcanon (cells (apply_ops (hp (fst run)) [ASetDoc 2 (Some 8%N)])) 3 15 <> mcanon (cells w2) 3 15 /\
+  mcanon (cells (apply_ops (hp (fst run)) [NSetAttr 21 2%N 2%N 5%N; NDelAttr 21 2%N])) 3 15 = mcanon (cells w2) 3 15.
+Proof.
+  cbv zeta. split; [exact (proj2 w2_clone_cells)|]. split; [exact w2_attr_edit_changes_original|].
+  exact w2_attr_set_keeps_original.
+Qed.
+Print Assumptions C13_shared_attr_edit_visible.
+
+Example C13_no_tensor_rename_satisfiable :
+  let run := model_clone 3 false 15 w2 in
+  let ops := [VSetDoc 20 (Some 9%N); VSetConst 20 None; VSetName 20 (Some 9%N)] in
+  ops_sided (col_clone (next w2)) true (hp (fst run)) ops /\ ops_no_trename (hp (fst run)) ops /\
+  mcanon (cells (apply_ops (hp (fst run)) ops)) 3 15 = mcanon (cells w2) 3 15.
+Proof. exact w2_no_trename_history. Qed.
+
 (* ---- C13_functional_pass_pure: functionalize(p)(model) = p(model.clone()); whatever program of edits the
-   pass runs on the clone it is given (and on what it creates), the input model's cells and serialization are
-   unchanged — also when cloning is rejected. *)
+   pass runs on the clone it is given (and on what it creates) — not renaming values that carry a const_value
+   tensor, see the refutation above — the input model's cells and serialization are unchanged, also when cloning is
+   rejected. *)
 Theorem C13_functional_pass_pure :
   forall fuel prog m h h' r,
     closed h -> m < next h ->
     (forall st m', model_clone fuel false m h = (st, Ok m') ->
-                   ops_sided (col_clone (next h)) true (hp st) (prog m')) ->
+                   ops_sided (col_clone (next h)) true (hp st) (prog m') /\ ops_no_trename (hp st) (prog m')) ->
     functional_pass fuel prog m h = (h', r) ->
     (forall x, x < next h -> cells h' x = cells h x) /\
     (forall k, mcanon (cells h') k m = mcanon (cells h) k m).
@@ -219,6 +288,7 @@ Theorem C13_closed_accepted :
     forall x, reach (cells (hp st)) (next h) g' x -> x < next h ->
       (exists a, cells h x = Some (CAttr a) /\ shared_attr a) \/
       (deep = false /\ exists m md k, cells h m = Some (CMeta md) /\ In (k, MObj x) (m_data md)) \/
+      (exists o v0, cells h o = Some (CValue v0) /\ v_const v0 = Some x) \/
       (In x (passed st) /\ forall k, ~ In x (owned (cells h) k g)).
 Proof. exact Proofs13.C13_closed_accepted. Qed.
 Print Assumptions C13_closed_accepted.
